@@ -407,8 +407,11 @@ deriving DecidableEq, Repr
 /-- `Atom.fullname_short` -/
 def label (a : AtomS) : String := if a.resinum = 0 then a.name else a.name ++ "_" ++ toString a.resinum
 
-/-- `Atom.is_isotropic`: `sum(uvals[1:]) == 0` -/
-def isIso (a : AtomS) : Bool := a.u22 + a.u33 + a.u23 + a.u13 + a.u12 = 0
+/-- `Atom.is_isotropic`: `not any(uvals[1:])` -/
+def isIso (a : AtomS) : Bool := !([a.u22, a.u33, a.u23, a.u13, a.u12].any fun u => u ≠ 0)
+
+/-- the code before the repair: `sum(uvals[1:]) == 0` -/
+def isIsoLegacy (a : AtomS) : Bool := a.u22 + a.u33 + a.u23 + a.u13 + a.u12 = 0
 
 def rowOf (a : AtomS) : Row := ⟨label a, a.element, a.x, a.y, a.z, !isIso a, a.occ, a.part⟩
 def adpOf (a : AtomS) : AdpRow := ⟨label a, [a.u11, a.u22, a.u33, a.u23, a.u13, a.u12]⟩
@@ -423,6 +426,22 @@ def adpLoop (atoms : List AtomS) : List AdpRow :=
 
 /-- specification: an atom is anisotropic when one of U22 … U12 is given (non-zero) -/
 def specAniso (a : AtomS) : Bool := a.u22 ≠ 0 || a.u33 ≠ 0 || a.u23 ≠ 0 || a.u13 ≠ 0 || a.u12 ≠ 0
+
+/-- keys of `cifDict` -/
+def modelKeys : List String :=
+  ["data_name", "sum_formula", "formula_weight", "cell_a", "cell_b", "cell_c", "cell_alpha", "cell_beta", "cell_gamma",
+   "cell_volume", "cell_z", "space_group", "temperature", "crystal_size_max", "crystal_size_mid", "crystal_size_min",
+   "wavelength", "R1", "wR2", "goodness_of_fit"]
+
+def isOk {ε α} : Except ε α → Bool
+  | .ok _ => true
+  | .error _ => false
+
+/-- the value the written CIF gives for a data name (`none`: no such item, or no file) -/
+def itemOf (s : Src) (name : String) : Option Val :=
+  match cifItems s with
+  | .ok l => lookup name l
+  | .error _ => none
 
 def specRow (a : AtomS) : Row := ⟨label a, a.element, a.x, a.y, a.z, specAniso a, a.occ, a.part⟩
 
